@@ -19,6 +19,7 @@ use redis_sim::redis::SDS;
 use redis_sim::replication::lattice::{LamportClock, ReplicaId};
 use redis_sim::replication::state::{CrdtValue, ReplicatedValue, ReplicationDelta};
 use redis_sim::streaming::wal_store::{InMemoryWalStore, WalError, WalFileReader, WalFileWriter, WalStore};
+use redis_sim::streaming::wal::WalReader;
 use redis_sim::streaming::{spawn_wal_actor, FsyncPolicy, WalConfig, WalRotator};
 use serde::{Deserialize, Serialize};
 use serde_json::{json, Value};
@@ -292,6 +293,9 @@ struct WOp {
     /// sent with write_fire_and_forget (no ack, no durability claim): noise inside the batches
     #[serde(default)]
     faf: bool,
+    /// not a write: `handle.truncate(ts)` ("everything stamped <= ts has been streamed to the object store")
+    #[serde(default)]
+    trunc: bool,
 }
 
 #[derive(Clone, Debug, Serialize, Deserialize, PartialEq)]
@@ -370,11 +374,14 @@ struct Outcome {
     end: &'static str, // how the actor task ended
     plan_mismatch: u64,
     recreated: u64,
+    /// (T, I/O calls completed when handle.truncate(T) was issued)
+    truncs: Vec<(u64, usize)>,
 }
 
 fn run_exec(spec: &Spec) -> Outcome {
     let store = PlanWalStore::new(&spec.faults, spec.sticky);
     let acks: Arc<Mutex<Vec<Ack>>> = Arc::new(Mutex::new(Vec::new()));
+    let truncs: Arc<Mutex<Vec<(u64, usize)>>> = Arc::new(Mutex::new(Vec::new()));
     let rt = tokio::runtime::Builder::new_current_thread().enable_all().start_paused(true).build().expect("runtime");
     let end = rt.block_on(async {
         let cfg = WalConfig {
@@ -393,6 +400,7 @@ fn run_exec(spec: &Spec) -> Outcome {
         let mut jhs = Vec::new();
         for (wi, ops) in spec.writers.iter().enumerate() {
             let (h, st, acks, ops) = (handle.clone(), store.clone(), Arc::clone(&acks), ops.clone());
+            let truncs = Arc::clone(&truncs);
             jhs.push(tokio::spawn(async move {
                 for (oi, op) in ops.iter().enumerate() {
                     for _ in 0..op.yields {
@@ -400,6 +408,11 @@ fn run_exec(spec: &Spec) -> Outcome {
                     }
                     if op.sleep_us > 0 {
                         tokio::time::sleep(Duration::from_micros(op.sleep_us)).await;
+                    }
+                    if op.trunc {
+                        truncs.lock().push((op.ts, st.calls() as usize));
+                        h.truncate(op.ts);
+                        continue;
                     }
                     if op.faf {
                         h.write_fire_and_forget(Arc::new(make_delta(wi, oi, op)), op.ts);
@@ -427,7 +440,8 @@ fn run_exec(spec: &Spec) -> Outcome {
     drop(rt);
     let g = store.0.lock();
     let acks = acks.lock().clone();
-    Outcome { log: g.log.clone(), files: g.files.clone(), acks, end, plan_mismatch: g.plan_mismatch, recreated: g.recreated }
+    let truncs = truncs.lock().clone();
+    Outcome { log: g.log.clone(), files: g.files.clone(), acks, end, plan_mismatch: g.plan_mismatch, recreated: g.recreated, truncs }
 }
 
 // ───────────────────────────── oracle ─────────────────────────────
@@ -449,6 +463,19 @@ struct Checked {
     pairs: u64,
     failed_but_survived: u64,
     failed_and_lost: u64,
+    legit_truncated: u64,
+}
+
+const SIG_TRUNC: &str = "C09|WalActor::handle_truncation|acked write lost at crash|file deleted although it holds a stamp above every requested truncation point";
+
+/// Was the file holding this entry deleted among the first `j` calls? Some(justified) / None (not deleted, or never appended).
+fn truncated_away(out: &Outcome, exp: &Expect, j: usize) -> Option<bool> {
+    let a = out.log.iter().position(|ev| ev.call == Call::Append && ev.ok && ev.wrote == exp.enc.len() && out.files[ev.file].1[ev.before..ev.before + ev.wrote] == exp.enc[..])?;
+    let f = out.log[a].file;
+    let d = out.log[..j.min(out.log.len())].iter().position(|ev| ev.call == Call::Delete && ev.file == f)?;
+    // greatest stamp in the file, read with the repository's own reader
+    let max_ts = WalReader::open(PlanReader(out.files[f].1.clone())).ok().map(|r| r.entries().iter().map(|e| e.timestamp).max().unwrap_or(0)).unwrap_or(u64::MAX);
+    Some(out.truncs.iter().any(|(t, c)| *c <= d && *t >= max_ts))
 }
 
 const SIG_ROTATE: &str = "C09|WalRotator::rotate|acked write lost at crash|batch straddles a rotation: outgoing file dropped without fsync";
@@ -564,6 +591,23 @@ fn check(spec: &Spec, out: &Outcome) -> Checked {
                 continue;
             }
             ck.pairs += (hi - ack.c.max(lo) + 1) as u64; // every j in [max(c,lo), hi] sees this same image
+            if !present && !out.truncs.is_empty() {
+                // the entry's file may have been removed by a truncation the workload itself asked for: legitimate iff some
+                // truncate(T) issued before the delete has T >= every stamp in that file
+                match truncated_away(out, exp, lo) {
+                    Some(true) => {
+                        ck.legit_truncated += 1;
+                        continue;
+                    }
+                    Some(false) => {
+                        if reported.insert((ack.wi, ack.oi)) {
+                            ck.findings.push(Finding { sig: SIG_TRUNC.to_string(), detail: format!("acked write (stamp {}) is gone at crash index {}: its file was deleted although no truncate(T) issued before the delete covers every stamp in the file (truncations issued: {:?})", exp.ts, lo, out.truncs), write: (ack.wi, ack.oi), c: ack.c, j: ack.c.max(lo) });
+                        }
+                        continue;
+                    }
+                    None => {}
+                }
+            }
             if !present && reported.insert((ack.wi, ack.oi)) {
                 let j = ack.c.max(lo);
                 let (sig, detail) = classify(out, exp, ack, j, &rec);
@@ -688,6 +732,7 @@ fn gen_op(rng: &mut Rng, quiet: bool) -> WOp {
         kind: [0, 0, 0, 1, 2, 3][rng.gen_range(0..6)],
         size: gen_size(rng),
         faf: false,
+        trunc: false,
     }
 }
 
@@ -713,6 +758,25 @@ fn gen_base(rng: &mut Rng, idx: u64) -> Spec {
         // unacknowledged entries cannot be told apart from the trace)
         for op in writers.iter_mut().flatten() {
             op.faf = rng.gen_range(0..4) == 0;
+        }
+    }
+    if !structured && rng.gen_range(0..3) == 0 {
+        // the streaming side reports progress: truncate(T) between the writes, T among the stamps in play, below and above them
+        let stamps: Vec<u64> = writers.iter().flatten().map(|o| o.ts).collect();
+        for w in writers.iter_mut() {
+            let mut k = 1;
+            while k <= w.len() {
+                if rng.gen_range(0..3) == 0 {
+                    let t = match rng.gen_range(0..4) {
+                        0 => 0,
+                        1 => u64::MAX,
+                        _ => stamps[rng.gen_range(0..stamps.len())],
+                    };
+                    w.insert(k, WOp { yields: rng.gen_range(0..3), sleep_us: [0, 0, 3000, 10_000][rng.gen_range(0..4)], ts: t, kind: 0, size: 1, faf: false, trunc: true });
+                    k += 1;
+                }
+                k += 1;
+            }
         }
     }
     let e0 = expectation(0, 0, &writers[0][0]).enc.len();
@@ -811,7 +875,7 @@ impl Ctx {
                 self.rep.count(&format!("acks_err:{}", a.err.chars().take(40).collect::<String>()));
             }
         }
-        let expected_acks: usize = spec.writers.iter().map(|w| w.iter().filter(|o| !o.faf).count()).sum();
+        let expected_acks: usize = spec.writers.iter().map(|w| w.iter().filter(|o| !o.faf && !o.trunc).count()).sum();
         if out.acks.len() != expected_acks {
             self.rep.count("executions_with_missing_acks");
         }
@@ -827,6 +891,7 @@ impl Ctx {
         self.rep.add("acked_write_x_crash_index_checks", ck.pairs);
         self.rep.add("failed_writes_that_survived", ck.failed_but_survived);
         self.rep.add("failed_writes_that_did_not_survive", ck.failed_and_lost);
+        self.rep.add("acked_writes_removed_by_a_requested_truncation", ck.legit_truncated);
         for f in &ck.findings {
             self.rep.count(&format!("lost:{}", f.sig.split('|').nth(1).unwrap_or("?")));
             if self.rep.has_sig(&f.sig) {
@@ -895,7 +960,8 @@ pub fn wal_leg(args: &Args) {
             cx.rep.count("fault_free_executions_with_failed_ack");
         }
         let bs = batches(&out0, base.gcme);
-        let noisy = base.writers.iter().flatten().any(|o| o.faf);
+        let noisy = base.writers.iter().flatten().any(|o| o.faf || o.trunc);
+        cx.rep.add("bases_with_truncate_calls", base.writers.iter().flatten().any(|o| o.trunc) as u64);
         cx.rep.add("bases_with_fire_and_forget_noise", noisy as u64);
         for bt in bs.iter().filter(|_| !noisy) {
             *hist.entry(bt.size).or_insert(0) += 1;
